@@ -74,8 +74,28 @@ theorem rev_cases (l : Bytes) (h : l ≠ []) :
     · rw [hl]; simp
     · rw [hl]; simp
 
-/-- the chunk loop computes the byte-by-byte description, for every chunk size `k + 2` -/
-theorem readLineLoop_eq (k : Nat) (racc : Bytes) (s : RStream) :
+theorem fgetsAux_append (k : Nat) (rest : Bytes) : (fgetsAux k rest).1 ++ (fgetsAux k rest).2.1 = rest := by
+  induction k generalizing rest with
+  | zero => simp [fgetsAux]
+  | succ k ih =>
+    cases rest with
+    | nil => simp [fgetsAux]
+    | cons c t =>
+      simp only [fgetsAux]
+      split
+      · simp
+      · simp [ih t]
+
+theorem takeWhile_nulfree (l : Bytes) (h : ∀ b ∈ l, b ≠ 0) : l.takeWhile (· != 0) = l := by
+  induction l with
+  | nil => rfl
+  | cons a t ih =>
+    have ha : a ≠ 0 := h a (by simp)
+    simp only [List.takeWhile_cons, bne_iff_ne, ne_eq, ha, not_false_eq_true, if_true]
+    rw [ih (fun b hb => h b (by simp [hb]))]
+
+/-- on NUL-free content the chunk loop computes the byte-by-byte description, for every chunk size `k + 2` -/
+theorem readLineLoop_eq (k : Nat) (racc : Bytes) (s : RStream) (hz : ∀ b ∈ s.rest, b ≠ 0) :
     readLineLoop k racc s = rlSpec racc s.rest s.eof := by
   fun_induction readLineLoop k racc s with
   | case1 racc s r out h =>
@@ -89,15 +109,24 @@ theorem readLineLoop_eq (k : Nat) (racc : Bytes) (s : RStream) :
       rw [hs] at h
       simp only [fgetsAux] at h
       split at h <;> simp at h
-  | case2 racc s c ch r out h rall s' hr =>
-    simp [rall] at hr
-  | case3 racc s c ch r out h rall s' t hr =>
+  | case2 racc s c ch r out h vis rall s' hr ih =>
+    -- nothing visible in a non-empty chunk: its first byte would be NUL
+    exfalso
+    have hap := fgetsAux_append (k + 1) s.rest
+    rw [h] at hap
+    have hc : c ≠ 0 := hz c (by rw [← hap]; simp)
+    have : rall = [] := hr
+    simp [rall, vis, hc] at this
+  | case3 racc s c ch r out h vis rall s' t hr =>
+    have hap := fgetsAux_append (k + 1) s.rest
+    rw [h] at hap
+    have hvis : vis = c :: ch := takeWhile_nulfree _ (fun b hb => hz b (by rw [← hap]; exact List.mem_append_left _ hb))
     have hf := (fgets_rlSpec (k + 1) racc s.rest s.eof).1
     rw [h] at hf
     obtain ⟨y, ys, hrev, hlast, hdrop⟩ := rev_cases (c :: ch) (by simp)
     have hr' : y :: (ys ++ racc) = 10 :: t := by
       have : rall = 10 :: t := hr
-      simp only [rall, hrev, List.cons_append] at this
+      simp only [rall, hvis, hrev, List.cons_append] at this
       exact this
     obtain ⟨rfl, rfl⟩ := List.cons.inj hr'
     obtain ⟨h1, h2⟩ := hf hlast
@@ -105,25 +134,30 @@ theorem readLineLoop_eq (k : Nat) (racc : Bytes) (s : RStream) :
     subst h2
     rw [h1, hdrop]
     simp [s']
-  | case4 racc s c ch r out h rall s' x t hr hx ih =>
+  | case4 racc s c ch r out h vis rall s' x t hr hx ih =>
+    have hap := fgetsAux_append (k + 1) s.rest
+    rw [h] at hap
+    have hvis : vis = c :: ch := takeWhile_nulfree _ (fun b hb => hz b (by rw [← hap]; exact List.mem_append_left _ hb))
+    have hzr : ∀ b ∈ s'.rest, b ≠ 0 := fun b hb => hz b (by rw [← hap]; exact List.mem_append_right _ hb)
     have hf := (fgets_rlSpec (k + 1) racc s.rest s.eof).2
     rw [h] at hf
     obtain ⟨y, ys, hrev, hlast, hdrop⟩ := rev_cases (c :: ch) (by simp)
     have hr' : y :: (ys ++ racc) = x :: t := by
       have : rall = x :: t := hr
-      simp only [rall, hrev, List.cons_append] at this
+      simp only [rall, hvis, hrev, List.cons_append] at this
       exact this
     obtain ⟨rfl, rfl⟩ := List.cons.inj hr'
     have hl : (c :: ch).getLast? ≠ some 10 := by
       rw [hlast]; intro h'; exact hx (Option.some.inj h')
     obtain ⟨h1, h2⟩ := hf hl
     simp only at h1 h2
-    rw [ih, h1]
+    rw [ih hzr, h1]
     simp only [s']
     cases out with
-    | false => simp [rall]
+    | false => simp [rall, hvis]
     | true =>
       rw [h2 rfl]
+      simp only [rall, hvis]
       exact rlSpec_nil _ _ _
 
 /-! ## `lines()` -/
@@ -145,6 +179,16 @@ theorem rlSpec_inv (racc rest : Bytes) (e : Bool) (h : e = true → rest = []) :
     · simp only [rlSpec, hc, if_false]
       exact ih (c :: racc) (by simp)
 
+theorem rlSpec_rest_mem (racc rest : Bytes) (e : Bool) : ∀ b ∈ (rlSpec racc rest e).2.rest, b ∈ rest := by
+  induction rest generalizing racc with
+  | nil => simp [rlSpec]
+  | cons c t ih =>
+    by_cases hc : c = 10
+    · simp only [rlSpec, hc, if_true]
+      intro b hb; exact List.mem_cons_of_mem _ hb
+    · simp only [rlSpec, hc, if_false]
+      intro b hb; exact List.mem_cons_of_mem _ (ih (c :: racc) b hb)
+
 theorem rlSpec_lines (racc rest : Bytes) :
     (rlSpec racc rest false).1.1 ::
       (if (rlSpec racc rest false).2.eof = true then [] else linesRef [] (rlSpec racc rest false).2.rest)
@@ -157,22 +201,24 @@ theorem rlSpec_lines (racc rest : Bytes) :
     · simp only [rlSpec, linesRef, hc, if_false]
       exact ih (c :: racc)
 
-theorem linesLoop_eq (k : Nat) (s : RStream) (acc : List Bytes) (hinv : s.eof = true → s.rest = []) :
+theorem linesLoop_eq (k : Nat) (s : RStream) (acc : List Bytes) (hinv : s.eof = true → s.rest = [])
+    (hz : ∀ b ∈ s.rest, b ≠ 0) :
     linesLoop k s acc = acc.reverse ++ (if s.eof = true then [] else linesRef [] s.rest) := by
   fun_induction linesLoop k s acc with
   | case1 s acc h => simp [h]
   | case2 s acc h r ih =>
     have he : s.eof = false := by cases hh : s.eof <;> simp_all
     have hr : r = rlSpec [] s.rest false := by
-      simp only [r]; rw [readLineLoop_eq, he]
-    rw [ih (by rw [hr]; exact rlSpec_inv [] s.rest false (by simp))]
+      simp only [r]; rw [readLineLoop_eq _ _ _ hz, he]
+    rw [ih (by rw [hr]; exact rlSpec_inv [] s.rest false (by simp))
+      (by rw [hr]; exact fun b hb => hz b (rlSpec_rest_mem _ _ _ b hb))]
     simp only [he, Bool.false_eq_true, if_false, List.reverse_cons, List.append_assoc, List.singleton_append]
     rw [hr, rlSpec_lines]
 
-/-- `lines()` for every chunk size ≥ 2 is the byte-by-byte description -/
-theorem lines_eq (chunk : Nat) (content : Bytes) : lines chunk content = linesRef [] content := by
+/-- `lines()` of NUL-free content, for every chunk size ≥ 2, is the byte-by-byte description -/
+theorem lines_eq (chunk : Nat) (content : Bytes) (hz : ∀ b ∈ content, b ≠ 0) : lines chunk content = linesRef [] content := by
   unfold lines
-  rw [linesLoop_eq _ _ _ (by simp)]
+  rw [linesLoop_eq _ _ _ (by simp) hz]
   simp
 
 /-! ## `text()`: the UTF-16 unit loops -/
